@@ -1,8 +1,8 @@
 package main
 
 import (
-	"strings"
 	"golang.org/x/tools/go/ssa"
+	"strings"
 )
 
 // Sources computes the backward data-dependence closure of v inside its
